@@ -52,6 +52,8 @@ func program(c Case) *gen.Program {
 		return gen.Replay(c.Choices, gen.Dce).Prog
 	case "tails":
 		return gen.Tails(c.Kind, c.K)
+	case "limits":
+		return gen.Limits(c.Kind, c.K)
 	}
 	return nil
 }
@@ -341,16 +343,24 @@ func main() {
 			tails = append(tails, Case{Family: "tails", Kind: k, K: i})
 		}
 	}
+	// limits family: constant pools beyond 256 entries (two-byte operands rewritten by de-duplication), long code
+	for _, k := range gen.LimitKinds {
+		for _, n := range gen.LimitSizes(k) {
+			tails = append(tails, Case{Family: "limits", Kind: k, K: n})
+		}
+	}
 	report.ParallelFor(len(tails), func(i int) {
 		c := tails[i]
 		fails, obs := runCase(c, &st)
 		atomic.AddInt64(&evals, 1)
 		text := tg.Print(program(c)).AllText
 		distinct.Add(text)
-		r.Outcome("tails/" + obs)
-		r.Count("programs/tails", 1)
+		r.Outcome(c.Family + "/" + obs)
+		r.Count("programs/"+c.Family, 1)
 		for _, fl := range fails {
-			c.Source = text
+			if c.Family != "limits" {
+				c.Source = text
+			}
 			r.Violation(fl.sig, fl.what, c)
 		}
 	})
